@@ -6,6 +6,7 @@ SpecSkinny g_spec;
 volatile int g_trace_gate = 0;
 volatile int g_trace_op = -1;
 
+extern "C" char __executable_start;
 namespace {
 
 struct Exec {
@@ -256,6 +257,12 @@ struct Exec {
                 }
                 case 4: { void *gp = g_area[A_OUT].map + 64; for (size_t q = 0; q + 8 <= st.hsize; q += 8) memcpy(st.h + q, &gp, 8); break; }
                 case 5: break;
+                case 6: {   // the byte image of ANOTHER live object of the same kind (a struct copy, a reused pool entry): init must not trust it
+                    bool done = false;
+                    for (size_t t = 0; t < S.size() && !done; ++t) if ((int)t != o.slot && S[t].kind == k && S[t].life == L_INIT) { memcpy(st.h, S[t].h, st.hsize); done = true; PROBE("init.prefill-image-of-live-object"); }
+                    if (!done) { Rng j(w_heap ^ (uint64_t)i * 77); j.fill(st.h, st.hsize); for (size_t q = 0; q < st.hsize; ++q) st.h[q] |= 1; }
+                    break;
+                }
                 default: { Rng j(w_heap ^ (uint64_t)i * 77); j.fill(st.h, st.hsize); for (size_t q = 0; q < st.hsize; ++q) st.h[q] |= 1; break; }
                 }
             }
@@ -308,7 +315,8 @@ struct Exec {
         if (!ok) {
             ob.crashed = true;
             log.ev("crash", i, g_crash.sig);
-            violate("crash", strf("%s faulted inside the library: signal %d touching %s%s", op_brief(plan, o).c_str(), g_crash.sig, classify_addr((void *)g_crash.addr).c_str(), g_crash.where[0] ? strf(" (%s)", g_crash.where).c_str() : ""));
+            if (g_crash.sig == SIGALRM) violate("no-progress", strf("%s: %s (stopped at pc+0x%lx)", op_brief(plan, o).c_str(), g_crash.where, (unsigned long)(g_crash.pc - (uintptr_t)&__executable_start)));
+            else violate("crash", strf("%s faulted inside the library: signal %d touching %s%s", op_brief(plan, o).c_str(), g_crash.sig, classify_addr((void *)g_crash.addr).c_str(), g_crash.where[0] ? strf(" (%s)", g_crash.where).c_str() : ""));
             tr(strf("#%d %s  -> CRASH", i, op_brief(plan, o).c_str()));
             return;
         }
